@@ -22,6 +22,7 @@ PROPS = {
         "claim": "Proof for every pattern shape: the real BasePattern::get (the variable lookup of the code generator) is proved to return the take/drop path of the FIRST pre-order (leftmost) occurrence of the identifier, and never to pop an empty selector when the identifier occurs; SelectorBuilder::h is proved to build exactly that path term; lemma_lookup then shows the term evaluates, on every value matching the environment pattern, to the component bound there. Scope::{push_scope, pop_scope, insert} are proved to touch only the innermost scope. Since newer bindings are nested to the left (lemma_newest_shadows / lemma_older_visible over `nest`), the leftmost occurrence is the most recent binding in scope.",
         "note": "Assumed: miniscript's verbose pre-order iterator enumerates the tree given by as_node (as_node itself is verified), Identifier equality is string equality, Simplicity term algebra. Not covered: Scope::get_input_pattern (flat_map/fold closures; it is the place that realises `nest`), From<&Pattern> for BasePattern, ast::Scope (typing-side scope stack), the uses in compile_blk / Match::compile, BasePattern::translate beyond its identifier case.",
         "units": ["lookup"],
+        "searchers": ["lookup/"],
         "scope": [r"^lookup/"],
         "level": "proof",
         "not_covered": ["Scope::get_input_pattern", "From<&Pattern> for BasePattern", "ast::Scope", "BasePattern::translate (non-identifier targets)"],
@@ -30,6 +31,7 @@ PROPS = {
         "claim": "Proof for every counter width 2^n (not only 1,2,4,8,16): Verus discharges (a) the structural postcondition of the real compile::for_while - including the in-place task-stack construction with split_at_mut/copy_from_slice and the pop loop - that the result is for_while_n(f) = for_while_(n-1)(for_while_(n-1)(adapt f)), with for_while_0 and adapt_f proved against their defining terms, and (b) the semantic theorem, by induction on n, that evaluating this term on (acc, ctx) equals `run`: the body is applied to counter values 0,1,2,.. in increasing order with the accumulator threaded and ctx unchanged, a Left ends the loop without evaluating any later iteration, otherwise exactly 2^(2^n) iterations run. Proof is the right level: the term is built by doubling and the claim is about all iterations.",
         "note": "Assumed: Simplicity combinator algebra + eval (A-simp), vstd specs of Vec/slice operations (split_at_mut, copy_from_slice, pop), derive semantics of Pow2Usize comparisons, Borrow reflexivity; postconditions conditional on the builders returning Ok (typing not modelled); the step function is defined from the body term, so bodies that return something other than Left/Right are covered as 'fails'. Not covered: the call site in Call::compile, ast signature/width checks (ast.rs).",
         "units": ["forwhile"],
+        "searchers": ["forwhile/for_while"],
         "scope": [r"^forwhile/"],
         "level": "proof",
         "not_covered": ["call site in Call::compile", "ast signature/width checks"],
@@ -38,6 +40,7 @@ PROPS = {
         "claim": "Proof, for every bound 2^k and every list length below it: Verus discharges the postcondition of the real compile::list_fold (with next_f_array, next_f_fold and the named.rs builders it calls, all cut verbatim from /repo/src on every run) stating that the built Simplicity term evaluates, on (list_val(es, bound), init), to the left fold f(e_k, .. f(e_1, init)) in list order with the accumulator threaded, and fails exactly when an application of f fails. list_val is the documented List layout shared with C07. A proof is the right level because the statement quantifies over all bounds and lengths and the function is a loop building ever larger terms.",
         "note": "Assumed: the Simplicity combinator algebra (each node constructor builds the term it is named after; eval transcribes the Bit Machine), std/vstd specs, derive semantics, Borrow reflexivity. Every postcondition is conditional on the type-inference-dependent builders returning Ok. Not covered: the fold call site in Call::compile, ast signature checks. Bodies of CoreExt::{unit_scribe,assert*,case_*} and PairBuilder::pair are assumed (their unwrap depends on typing).",
         "units": ["fold"],
+        "searchers": ["fold/list_fold"],
         "scope": [r"^fold/"],
         "level": "proof",
         "not_covered": ["the fold call site in Call::compile (argument tupling, args.comp(&fold_body))",
@@ -48,6 +51,7 @@ PROPS = {
         "claim": "Proof for every decimal string of any length: the real U256::from_str is proved to return Ok exactly for non-empty all-digit strings whose mathematical value is below 2^256 and to return that value (big-endian bytes), including the 78-digit early exit and the carry loop; no sampling bound.",
         "note": "Assumed: vstd model of str::chars / Chars::next, specs of trim_start_matches('0'), Chars::count, char::to_digit(10). Rule R3 rewrites the iter_mut().rev() loop into an index loop (validated in the thorough tier). Not covered yet: the other literal parsers (value.rs), ast passing the right type, the pest literal rules.",
         "units": ["num", "literal"],
+        "searchers": ["num/FromStr for U256::from_str", "literal/Value::parse_hexadecimal", "literal/UIntValue::parse_decimal"],
         "scope": [r"^num/FromStr for U256", r"^num/lemma_", r"^literal/"],
         "level": "proof",
         "not_covered": ["ast::SingleExpression::analyze passing the right type", "pest literal rules (A-pest)"],
